@@ -90,6 +90,14 @@ def iter1(eng, out):
             continue
         body = loops[hdr]
         out.obl("ITER-1", "loop:%s" % kind, (eng.name, nb))
+        # user code inside a hash-ordered loop: if it panics, the elements processed so far are an
+        # order-dependent subset (worklists / vectors drained with pop are exempt: their owner's drop
+        # glue finishes the job in any order)
+        if g.blocks[nb]["term"]["k"] == "call" and (g.blocks[nb]["term"]["callee"] or {}).get("def") == "core::iter::Iterator::next":
+            for (ek, eb, esi), ev in eng.event_index.items():
+                if ek in ("user", "handle_drop", "indirect") and eb in body and not g.blocks[eb]["cleanup"]:
+                    out.violate("ITER-1", "user-code-in-hash-ordered-loop", "user code (%s) runs inside a loop over a %s; if it panics the loop stops after an order-dependent subset of the elements" % (
+                        ev.get("ty") or ev.get("method") or ek, desc), where_of(g, eb), entry=eng.name)
         # the switch on the driving call's result
         cur = g.blocks[nb]["term"].get("target")
         sw = None
